@@ -12,11 +12,12 @@ DEFAULT = dict(
     partial_term=True, chords=True, acc=True, sigs=True, grace=True, rest_in_chord=True, sep_chars=False,
     signatures=True, supported_clefs_only=False, others=True, force_clef=False, max_body=10, max_sub=3, max_width=7,
     barlines=True, final_barline=True, numbered_bars=False, null_weight=2, interp_rows=True, rule_iv=True,
+    sig_in_split=False,
 )
 
 PROFILES = {
     'full': {},
-    'agnostic': dict(force_clef=True, supported_clefs_only=True),
+    'agnostic': dict(force_clef=True, supported_clefs_only=True, sig_in_split=True),
     'kernonly': dict(types=['**kern']),
     'damage': dict(),
     'sep': dict(sep_chars=True),
@@ -77,7 +78,7 @@ def _interp_cell(draw, P, typ):
     if typ == '**root':
         return draw(G.kern_interps(signatures=P['signatures'], supported_clefs_only=P['supported_clefs_only'],
                                    others=P['others']))
-    return draw(G.other_interps(typ)) if P['others'] else G.nullinterp_cell()
+    return draw(G.other_interps(typ, supported_clefs_only=P['supported_clefs_only'])) if P['others'] else G.nullinterp_cell()
 
 
 def _split_row(draw, P, paths):
@@ -182,6 +183,17 @@ def _event(draw, P, paths, rows, state):
         if r:
             rows.append(r)
             rows.append(_row([_data_cell(draw, P, paths.typ(k)) for k in range(len(paths.sp))]))
+            if P['sig_in_split'] and draw(st.booleans()):
+                # a signature change inside the freshly opened sub-spines, then more data
+                cells = []
+                for k in range(len(paths.sp)):
+                    if paths.typ(k) in (KERN, '**root') and paths.sp.count(paths.sp[k]) > 1 and draw(st.booleans()):
+                        cells.append(draw(G.clefs(supported_only=P['supported_clefs_only'])))
+                    else:
+                        cells.append(G.nullinterp_cell())
+                if any(c['k'] == 'interp' for c in cells):
+                    rows.append(_row(cells))
+                    rows.append(_row([_data_cell(draw, P, paths.typ(k)) for k in range(len(paths.sp))]))
     elif x in (17, 18) and P['splits']:
         r = _join_row(draw, P, paths)
         if r:
